@@ -153,6 +153,33 @@ def run(ctx, chk):
                         chk.ob(ok, "C12/reverse/%s/%r" % (c3, bl), "u8::from(ShipType::parse(c)) is %r for c in %r [%s], expected c" % (bl, c3, cfg),
                                sample={"reverse": "u8::from(ShipType)", "codes": repr(c3), "result": repr(bl)})
                 chk.ob(IntSet.range(1, 99).subset_of(covered), "C12/reverse/coverage", "reverse ship-type map not evaluated on all of 1..=99 [%s]" % cfg)
+    # the public conversion `ShipType::from(u8)`: the same table as the decoder for the assigned and
+    # reserved codes, and no value at all (it is documented to refuse) for the undefined ones -
+    # folding them into a named type would make the mapping non-injective
+    for cfg in cfgs:
+        I, _ = ctx.layouts(cfg)
+        C = Canon(I.f)
+        fwd = [b for b in I.f.bodies.values() if (b.get("impl_trait") or "").endswith("convert::From") and (b.get("impl_self") or "").endswith("ShipType")
+               and "<u8>" in (b.get("impl_trait_ref") or "") and b["def"].endswith("::from")]
+        chk.ob(len(fwd) == 1, "C12/forward/missing/%d" % len(fwd), "From<u8> for ShipType not found [%s]" % cfg)
+        if len(fwd) != 1:
+            continue
+        table, w = enums.TABLES["ShipType"]
+        try:
+            rows = leaf_table(I, C, fwd[0]["def"], [IntSet.range(0, 255)])
+        except Exception as e:
+            chk.ob(False, "C12/forward/unanalysable", "reason=unanalysable: ShipType::from(u8) [%s]: %r" % (cfg, e))
+            continue
+        for (sets, term, s2, rv) in rows:
+            variant, payload = describe(("some", term)) if term and term[0] != "some" else describe(term)
+            for c in sets[0].values():
+                want = table.get(c) if c < (1 << w) else None
+                if want is None:
+                    chk.ob(False, "C12/forward/%d/got=%s/want=refused" % (c, variant), "ShipType::from(%d) [%s] yields %s; code %d is undefined and must not become a value" % (c, cfg, variant, c))
+                    break
+                ok = (variant == want[0] and payload == ("sym", "arg0")) if isinstance(want, tuple) else (variant == want and payload is None)
+                chk.ob(ok, "C12/forward/%d/got=%s" % (c, variant), "ShipType::from(%d) [%s] yields %s, the specification names it %s" % (c, cfg, variant, want),
+                       sample={"conversion": "ShipType::from(u8)", "code": c, "value": variant})
     # "distinct codes give distinct values" is observed through `==` (and copies through `clone`):
     # a hand-written `eq` that looks at the discriminant only makes Reserved(75) == Reserved(78)
     want = set(enums.FIELD_ENUM.values())
